@@ -45,6 +45,14 @@ func verifC08Vegas(aboveMax bool) {
 	a.OnSample(0, lo, inflight, drop)
 	b.OnSample(0, hi, inflight, drop)
 	verif.Assert("vegas-monotone-rtt", b.estimatedLimit <= a.estimatedLimit*noise)
+	if !aboveMax {
+		// the relational claim quantifies over the states of verifVegasState: they must be closed
+		// under the samples of this harness (the excluded ones: VerifC08_Vegas_DomainClosed)
+		verif.Assert("vegas-domain-closed", a.estimatedLimit >= 1)
+		verif.Assert("vegas-domain-closed", b.estimatedLimit >= 1)
+		verif.Assert("vegas-domain-closed", a.estimatedLimit <= float64(a.maxLimit)*relax)
+		verif.Assert("vegas-domain-closed", b.estimatedLimit <= float64(a.maxLimit)*relax)
+	}
 	verif.Reach("end")
 }
 
@@ -72,7 +80,7 @@ func verifCopyGradient(l *GradientLimit) *GradientLimit {
 //verif:harness property=C08 theory=real tier=quick timeout=120
 func VerifC08_Gradient() {
 	verifQuickSmooth = 1
-	a, _ := verifGradientState(true)
+	a, hiBound := verifGradientState(true)
 	b := verifCopyGradient(a)
 	base := a.rttNoLoadMeasurement.Get()
 	lo, hi := verif.Int64("rtt_lo"), verif.Int64("rtt_hi")
@@ -84,6 +92,56 @@ func VerifC08_Gradient() {
 	a.OnSample(0, lo, inflight, drop)
 	b.OnSample(0, hi, inflight, drop)
 	verif.Assert("gradient-monotone-rtt", b.estimatedLimit <= a.estimatedLimit*noise)
+	// the relational claim quantifies over the states of verifGradientState: they must be closed
+	// under the samples of this harness (the excluded ones: VerifC08_Gradient_DomainClosed)
+	verif.Assert("gradient-domain-closed", a.estimatedLimit >= float64(a.minLimit))
+	verif.Assert("gradient-domain-closed", b.estimatedLimit >= float64(a.minLimit))
+	verif.Assert("gradient-domain-closed", a.estimatedLimit <= float64(hiBound)*relax)
+	verif.Assert("gradient-domain-closed", b.estimatedLimit <= float64(hiBound)*relax)
+	verif.Reach("end")
+}
+
+// VerifC08_Gradient_DomainClosed: "the same prior history" ranges over the states of
+// verifGradientState; this harness shows that the samples the relational harness excludes (probes,
+// samples that lower or set the baseline) lead back into that set, so the relational claim covers
+// every state a history can produce (a probe that left the estimate below minLimit would make the
+// next pair of samples non-monotone: seeded change C08b).
+//
+//verif:harness property=C08 theory=real tier=quick timeout=120
+func VerifC08_Gradient_DomainClosed() {
+	verifQuickSmooth = 1
+	l, hi := verifGradientState(true)
+	base := l.rttNoLoadMeasurement.Get()
+	rtt := verif.Int64("rtt")
+	inflight := verif.Int("inflight")
+	verif.Assume(rtt >= 1 && rtt <= 1<<53 && inflight >= 0 && inflight < 1<<31)
+	probe := l.probeInterval != ProbeDisabled && l.resetRTTCounter-1 <= 0
+	verif.Assume(probe || base == 0 || float64(rtt) < base)
+	l.OnSample(0, rtt, inflight, verif.Bool("drop"))
+	verif.Assert("gradient-domain-closed-excluded", l.estimatedLimit >= float64(l.minLimit))
+	verif.Assert("gradient-domain-closed-excluded", l.estimatedLimit <= float64(hi)*relax)
+	if l.probeInterval != ProbeDisabled {
+		verif.Assert("gradient-domain-counter", l.resetRTTCounter >= 1)
+		verif.Assert("gradient-domain-counter", l.resetRTTCounter < 2*l.probeInterval)
+	}
+	verif.Reach("end")
+}
+
+// VerifC08_Vegas_DomainClosed: the same for Vegas (probe samples, samples that lower or set the baseline).
+//
+//verif:harness property=C08 theory=real tier=quick timeout=120
+func VerifC08_Vegas_DomainClosed() {
+	verifQuickSmooth = 1
+	l, _ := verifVegasState(true)
+	verif.Assume(l.estimatedLimit <= float64(l.maxLimit))
+	base := l.rttNoLoad.Get()
+	rtt := verif.Int64("rtt")
+	inflight := verif.Int("inflight")
+	verif.Assume(rtt >= 1 && rtt <= 1<<53 && inflight >= 0 && inflight < 1<<31)
+	verif.Assume(l.shouldProbeAfterIncrement() || base == 0 || float64(rtt) < base)
+	l.OnSample(0, rtt, inflight, verif.Bool("drop"))
+	verif.Assert("vegas-domain-closed-excluded", l.estimatedLimit >= 1)
+	verif.Assert("vegas-domain-closed-excluded", l.estimatedLimit <= float64(l.maxLimit)*relax)
 	verif.Reach("end")
 }
 
